@@ -129,7 +129,7 @@ def run(module, cfg=None, *, workers=16, env=None, simulate=None, depth=None, ti
         res.ok = True
     else:
         m = re.search(r"Error: Invariant (\S+) is violated", out) or re.search(r"Error: Action property (\S+) is violated", out) \
-            or re.search(r"Error: Temporal properties were violated", out)
+            or re.search(r"Error: Temporal property (\S+) was violated", out) or re.search(r"Error: Temporal properties were violated", out)
         if m:
             res.violated = m.group(1) if m.groups() else "temporal"
             i = out.find("Error:")
